@@ -149,6 +149,27 @@ var assumptions = []string{
 	"access paths are not re-assigned between a guard and the guarded use",
 }
 
+// Unlisted returns the violated and undecided obligations (floors evaluated), i.e. what would make
+// the check exit non-zero; known findings are not included.
+func (c *Ctx) Unlisted() []Obligation {
+	counts := map[string]int{}
+	for _, o := range c.Obs {
+		counts[o.Rule]++
+	}
+	var out []Obligation
+	for r, n := range c.floors {
+		if counts[r] < n {
+			out = append(out, Obligation{r, "floor", "-", Undecided, "rule matched fewer constructs than confirmed by hand"})
+		}
+	}
+	for _, o := range c.Obs {
+		if o.Verdict == Violation || o.Verdict == Undecided {
+			out = append(out, o)
+		}
+	}
+	return out
+}
+
 // Finish evaluates floors, writes evidence and violation files, prints the verdict lines
 // and returns the process exit code (0 held, 1 violation, 2 undecided).
 func (c *Ctx) Finish(verifDir string, explanation string, start time.Time, extra map[string]any) int {
